@@ -173,9 +173,87 @@ class _Quiet:
         self.sim.tls.quiet -= 1
 
 
+_PLAIN = (int, float, str, bool, bytes, type(None), list, dict, set, tuple, frozenset)
+_BASELINE: dict[tuple[str, str, str], Any] = {}
+
+
+def _plain(v: Any, depth: int = 0) -> bool:
+    if isinstance(v, (int, float, str, bool, bytes, type(None))):
+        return True
+    if depth > 4:
+        return False
+    if isinstance(v, (list, tuple, set, frozenset)):
+        return all(_plain(x, depth + 1) for x in v)
+    if isinstance(v, dict):
+        return all(_plain(k, depth + 1) and _plain(x, depth + 1) for k, x in v.items())
+    return False
+
+
+def reset_repo_state() -> int:
+    """One run must not see what an earlier run in the same worker left behind in fakesnow's MODULE-level or CLASS-level
+    data (counters, caches, registries, shared sqlglot expressions a change may introduce or mutate): the first sight
+    of each such attribute is its baseline, every later run starts from a copy of it. Returns how many were restored."""
+    import copy
+    import sys
+
+    try:
+        from sqlglot import exp as _exp
+    except ImportError:  # pragma: no cover
+        _exp = None  # type: ignore[assignment]
+    restored = 0
+    for mname, mod in list(sys.modules.items()):
+        if mod is None or not (mname == "fakesnow" or mname.startswith("fakesnow.")):
+            continue
+        owners: list[tuple[str, Any]] = [("", mod)]
+        for cname, c in list(vars(mod).items()):
+            if isinstance(c, type) and getattr(c, "__module__", None) == mname:
+                owners.append((cname, c))
+            elif not isinstance(c, type) and str(getattr(type(c), "__module__", "")).startswith("fakesnow") and hasattr(c, "__dict__"):
+                owners.append(("=" + cname, c))  # a module-level instance of one of fakesnow's own classes (registry, counter, ...)
+        for oname, owner in owners:
+            for attr, val in list(vars(owner).items()):
+                if attr.startswith("__"):
+                    continue
+                key = (mname, oname, attr)
+                is_expr = _exp is not None and isinstance(val, _exp.Expression)
+                if not is_expr and not (isinstance(val, _PLAIN) and _plain(val)):
+                    continue
+                if key not in _BASELINE:
+                    _BASELINE[key] = (val.copy(), sorted(val.args)) if is_expr else copy.deepcopy(val)
+                    continue
+                base = _BASELINE[key]
+                try:
+                    if is_expr:
+                        b, keys = base
+                        if sorted(val.args) != keys or val.sql() != b.sql():
+                            fresh = b.copy()
+                            val.args.clear()
+                            for k2, v2 in list(fresh.args.items()):
+                                val.set(k2, v2)
+                            restored += 1
+                    elif type(val) is not type(base) or val != base:
+                        if isinstance(val, dict) and isinstance(base, dict):
+                            val.clear()
+                            val.update(copy.deepcopy(base))
+                        elif isinstance(val, list) and isinstance(base, list):
+                            val[:] = copy.deepcopy(base)
+                        elif isinstance(val, set) and isinstance(base, set):
+                            val.clear()
+                            val.update(copy.deepcopy(base))
+                        else:
+                            setattr(owner, attr, copy.deepcopy(base))
+                        restored += 1
+                except BaseException:  # noqa: BLE001, S110
+                    pass  # read-only or exotic attribute: leave it
+    return restored
+
+
 def begin(scratch: str | None = None) -> Sim:
     global SIM
+    n = reset_repo_state()
     SIM = Sim(scratch)
+    if n:
+        SIM.probes["module_state_restored"] += n
     return SIM
 
 
